@@ -17,10 +17,10 @@ points   [[lon, lat], ...]; probe = generator description for points around the 
 
 Expected outcomes are computed from the property statements: exact float comparisons of the
 point against the cell boundaries (numpy.searchsorted / python comparisons), never by the floor
-division of the code under test.  The tolerance the properties grant: a coordinate within
-TOL*(|p| + |first boundary|) immediately BELOW a boundary may be attributed to either adjacent
-cell/bin ("adjacent" includes "outside" at the rim); a coordinate at or above a boundary belongs
-to the cell that boundary opens."""
+division of the code under test.  The tolerance the properties grant (same margin as the C02
+contract of bin1d_vec): a coordinate within TOL*(|p| + (c+1)*|first boundary|) immediately BELOW
+boundary number c may be attributed to either adjacent cell/bin ("adjacent" includes "outside"
+at the rim); a coordinate at or above a boundary belongs to the cell that boundary opens."""
 import itertools
 import json
 import operator
@@ -171,7 +171,7 @@ def _axis_v(p, lo, hi):
     n = len(hi) - 1
     k = numpy.searchsorted(hi, p, side='right') - 1
     k1 = numpy.minimum(k + 1, n)
-    amb = (k < n) & (p >= lo[k1] - TOL * (numpy.abs(p) + abs(float(hi[0]))))
+    amb = (k < n) & (p >= lo[k1] - TOL * (numpy.abs(p) + (k1 + 1) * abs(float(hi[0]))))
     return k, amb
 
 
@@ -379,6 +379,46 @@ def _grid_lookup(lattice, points=None, probe=None, each=400, scalar=False):
         if masked is not None and bool(masked[j]) != got_out:
             report(j, 'get_masked = %r but get_index_of %s (the two must agree)' % (bool(masked[j]), 'raised' if got_out else 'returned'))
     return bad[:8]
+
+
+@oracle('grid_cartesian')
+def _grid_cartesian(lattice):
+    """index plumbing of the same partition: origins / get_location_of give back the cells in the
+    described order, get_cartesian puts the value of cell i at its (row, column) of the bounding
+    box and NaN wherever there is no active cell"""
+    L, region, bad = get_lattice(lattice)
+    if bad:
+        return bad
+    bad = []
+    o = call(region.origins)
+    if o[0] == 'raise' or not numpy.array_equal(numpy.asarray(o[1], dtype=float), L.origins):
+        bad.append('origins() differs from the origins the region was built from')
+    loc = call(region.get_location_of, list(range(L.n_cells)))
+    if loc[0] == 'raise':
+        bad.append('get_location_of raised ' + _exc(loc))
+    else:
+        for i, pol in enumerate(loc[1]):
+            if tuple(float(v) for v in pol.origin) != (float(L.origins[i, 0]), float(L.origins[i, 1])):
+                bad.append('get_location_of([%d]) has origin %r, cell %d has origin %r' % (i, pol.origin, i, L.origins[i].tolist()))
+                break
+    data = numpy.arange(L.n_cells, dtype=float) + 1.0
+    out = call(region.get_cartesian, data)
+    if out[0] == 'raise':
+        bad.append('get_cartesian raised ' + _exc(out))
+    else:
+        a = numpy.asarray(out[1], dtype=float)
+        exp = numpy.where(L.table[1:-1, 1:-1] == OUT, numpy.nan, L.table[1:-1, 1:-1] + 1.0)
+        if a.shape != exp.shape:
+            bad.append('get_cartesian shape %r, bounding box has %d rows x %d columns' % (a.shape, L.ny, L.nx))
+        elif not numpy.array_equal(a, exp, equal_nan=True):
+            ky, kx = numpy.argwhere(~((a == exp) | (numpy.isnan(a) & numpy.isnan(exp))))[0]
+            bad.append('get_cartesian[row %d, column %d] = %r, required %r' % (ky, kx, float(a[ky, kx]), float(exp[ky, kx])))
+    bb = call(region.get_bbox)
+    if bb[0] == 'return':
+        want = (L.bxhi[0], L.bxhi[-1], L.byhi[0], L.byhi[-1])
+        if any(abs(float(g) - float(w)) > 1e-9 * (1 + abs(float(w))) for g, w in zip(bb[1], want)):
+            bad.append('get_bbox %r, required %r' % (tuple(float(g) for g in bb[1]), tuple(float(w) for w in want)))
+    return bad
 
 
 def _norm_events(events):
